@@ -55,10 +55,12 @@
 (* in Init: Profiles = "full" (every module has all three), "all" (every   *)
 (* profile), "good" (every profile for GOOD cases, "full" for the others;  *)
 (* Python draws profiles for a sample of those and hands them back through *)
-(* a case file), "goodpaired" (as "good", but only the profiles            *)
-(* <<S, S, {}>> and <<S, complement of S, {}>> for every set S of modules, *)
-(* and <<{}, {}, X>> and <<X, X, X>> for every non-empty set X of modules  *)
-(* that declare nothing: X lack the constructor only / every entry point). *)
+(* a case file), "goodsplit" (as "good", but only the profiles <<P, D, {}>> *)
+(* for all sets P, D of modules, and <<{}, {}, X>> and <<X, X, X>> for     *)
+(* every non-empty set X of modules that declare nothing: X lack the       *)
+(* constructor only / every entry point), "goodpaired" (as "goodsplit",    *)
+(* but of the <<P, D, {}>> only <<S, S, {}>> and <<S, complement of S, {}>> *)
+(* for every set S of modules).                                            *)
 (*                                                                         *)
 (* B is deterministic: one behaviour per initial state; the initial states *)
 (* are the cases.  Source = "enum": all cases with n <= MaxN modules that  *)
@@ -76,7 +78,7 @@ CONSTANTS
     DepOrders,   \* enum: "asc" (declarations in name order) | "all" (every call order)
     WithMissing, \* enum: also cases with one dependency-free module whose .so does not exist
     WithAnti,    \* enum: also module_antidepends() edges (outside the contract; exploration only)
-    Profiles,    \* enum: "full" | "all" | "good" | "goodpaired"  (hook profiles, see above)
+    Profiles,    \* enum: "full" | "all" | "good" | "goodsplit" | "goodpaired"  (hook profiles, see above)
     Bug          \* "none" | "D12" (module_dfs before commit 47cba46)
                  \* | "NoPostNoMark" | "NoDtorNoUnlink" | "NoCtorNoRestore" (regressions on the paths
                  \*   for absent entry points)
@@ -158,17 +160,19 @@ ProfileChoices(c) ==
         L    == SUBSET Have
         X    == (SUBSET Silent(c)) \ {{}}
         AnyP == L \X L \X (SUBSET Silent(c))
+        \* every non-empty set of modules that declare nothing lacking the constructor only / all
+        \* three entry points
+        CtorSets == {<<{}, {}, x>> : x \in X} \cup {<<x, x, x>> : x \in X}
         \* every set of modules without post-init, each once with the same and once with the
         \* complementary set of modules without destructor (so every module also has each of the
-        \* four variants in every case), all with constructors; and every non-empty set of modules
-        \* that declare nothing lacking the constructor only / all three entry points
+        \* four variants in every case), all with constructors
         Paired == {<<x, x, {}>> : x \in L} \cup {<<x, Have \ x, {}>> : x \in L}
-                  \cup {<<{}, {}, x>> : x \in X} \cup {<<x, x, x>> : x \in X}
         Full == {<<{}, {}, {}>>}
     IN CASE Profiles = "full" -> Full
          [] Profiles = "all"  -> AnyP
          [] Profiles = "good" -> IF Good(c) THEN AnyP ELSE Full
-         [] Profiles = "goodpaired" -> IF Good(c) THEN Paired ELSE Full
+         [] Profiles = "goodsplit" -> IF Good(c) THEN (L \X L \X {{}}) \cup CtorSets ELSE Full
+         [] Profiles = "goodpaired" -> IF Good(c) THEN Paired \cup CtorSets ELSE Full
 
 Init ==
     IF Source = "file"
